@@ -251,3 +251,71 @@ Proof.
 Qed.
 
 End HostHistories.
+
+(* ---- assignments take effect: what is read right after search, href or searchParams was changed ---- *)
+Definition show_query (q : zs) : zs := match q with [] => [] | _ => 63 :: q end.
+
+Lemma parse_raw_nil : parse_raw [] = [].
+Proof. reflexivity. Qed.
+
+(* right after url.search = v: search is '' or '?' + the assigned query (leading '?' removed, escaped as fixRawQuery does), and
+   searchParams - whether the object was handed out before or is obtained now - lists exactly its pairs; nothing of the
+   previous query or list survives, whatever state a searchParams change had left the lazy marker in *)
+Theorem search_assignment_takes_effect s v :
+  let q := fix_raw_query (trim_q v) in
+  get_search (set_search s v) = show_query q /\ get_params (set_search s v) = parse_raw q /\
+  scheme (set_search s v) = scheme s /\ host (set_search s v) = host s /\ fragment (set_search s v) = fragment s /\ upath (set_search s v) = upath s.
+Proof.
+  intro q. unfold set_search. fold q. generalize q. clear q. intro q.
+  assert (N : q = [] -> parse_raw q = []) by (intros ->; reflexivity).
+  remember (parse_raw q) as P eqn:HP.
+  destruct (sp s) as [l|] eqn:E.
+  - unfold get_search, sync, get_params, materialise. cbn [sp rawquery scheme host fragment upath set].
+    destruct q as [|c q']; [rewrite (N eq_refl)|]; cbn.
+    + repeat split; reflexivity.
+    + destruct P; repeat split; reflexivity.
+  - unfold get_search, sync, get_params, materialise. cbn. rewrite E. cbn. destruct q; repeat split; try reflexivity. all: symmetry; exact HP.
+Qed.
+
+(* right after a searchParams change f (append, delete, set, sort): searchParams lists f of what it listed, and search (hence
+   href, which prints the same synchronised url.URL) shows exactly that list re-encoded *)
+Local Opaque serialize parse_raw.
+Theorem params_change_takes_effect s f :
+  get_params (mutate s f) = f (get_params s) /\
+  get_search (mutate s f) = show_query (match f (get_params s) with [] => [] | l => serialize l end).
+Proof.
+  unfold mutate. destruct (sp s) as [l|] eqn:E.
+  - assert (M : materialise s = s) by (unfold materialise; rewrite E; reflexivity). rewrite M, E.
+    assert (G : get_params s = l) by (unfold get_params; rewrite M, E; reflexivity). rewrite G.
+    remember (f l) as fl eqn:F. clear F. split.
+    + unfold get_params, materialise. cbn. reflexivity.
+    + unfold get_search, sync. cbn. destruct fl as [|p r]; cbn; [reflexivity|]. destruct (serialize (p :: r)); reflexivity.
+  - assert (M : sp (materialise s) = Some (parse_raw (rawquery s))) by (unfold materialise; rewrite E; reflexivity). rewrite M.
+    assert (G : get_params s = parse_raw (rawquery s)) by (unfold get_params; rewrite M; reflexivity). rewrite G.
+    remember (f (parse_raw (rawquery s))) as fl eqn:F. clear F. split.
+    + unfold get_params, materialise. cbn. reflexivity.
+    + unfold get_search, sync. cbn. destruct fl as [|p r]; cbn; [reflexivity|]. destruct (serialize (p :: r)); reflexivity.
+Qed.
+
+(* right after url.href = v was accepted (no throw): scheme, fragment and query are those of v as net/url parses it; search
+   shows that query and searchParams - handed out before or obtained now - lists exactly its pairs *)
+Theorem href_assignment_takes_effect parse_url lower norm_host clean_path s v s' :
+  set_href parse_url lower norm_host clean_path s v = Some s' ->
+  exists sc h0 q0 f p0, parse_url v = Some (sc, h0, q0, f, p0) /\ scheme s' = sc /\ fragment s' = f /\
+    get_search s' = show_query (fix_raw_query q0) /\ get_params s' = parse_raw (fix_raw_query q0).
+Proof.
+  unfold set_href. destruct (parse_url v) as [[[[[sc h0] q0] f] p0]|] eqn:P; [|discriminate].
+  destruct sc as [|c sc']; [discriminate|]. cbv beta iota.
+  destruct (is_special_net (c :: sc') && match h0, p0 with [], [] => true | _, _ => false end); [discriminate|].
+  destruct (fix_host lower norm_host (c :: sc') (drop_default_port (c :: sc') h0)) as [h|]; [|discriminate].
+  intro H. injection H as <-. exists (c :: sc'), h0, q0, f, p0. split; [reflexivity|].
+  remember (fix_raw_query q0) as q eqn:Q. clear Q.
+  assert (N : q = [] -> parse_raw q = []) by (intros ->; reflexivity).
+  remember (parse_raw q) as PL eqn:HP.
+  destruct (sp s) as [l|] eqn:E.
+  - unfold get_search, sync, get_params, materialise. cbn. destruct q as [|z q']; [rewrite (N eq_refl)|]; cbn.
+    + repeat split; reflexivity.
+    + destruct PL; repeat split; reflexivity.
+  - unfold get_search, sync, get_params, materialise. cbn. rewrite E. cbn. destruct q; repeat split; try reflexivity. all: symmetry; exact HP.
+Qed.
+Local Transparent serialize parse_raw.
